@@ -1,38 +1,46 @@
 import Pun.Lemmas.PBoxFrechet
 import Pun.Lemmas.PBoxMk
 import Pun.Lemmas.PBoxNeg
+import Pun.Lemmas.PBoxFrechet2
+import Pun.Lemmas.PBoxRecip
 /-!
 # C02 — default (Frechet) p-box arithmetic bounds every dependence, and tightly
 
-The theorems are about the functions the model driver executes (`Pun.PBox.frechetOp`, which the
-public `add/sub/mul/div(…, 'f')` route to), for lists of ANY length `n`, ANY selection of one value
-per step and ANY permutation coupling `σ`.
+The theorems are about the functions the model driver executes (`Pun.PBox.binop … .f`, i.e. the
+public `add/sub/mul/div(…, 'f')`, and `Pun.PBox.frechetOp` which they route to), for lists of ANY
+length `n`, ANY selection of one value per step and ANY permutation coupling `σ`.
 
 "The k-th smallest outcome lies inside the k-th step" is stated by counting: at most `i` outcomes
-lie strictly below `left[i]` and at most `n-1-i` strictly above `right[i]`.
+lie strictly below `left[i]` and at most `n-1-i` strictly above `right[i]` (`Valid`); "the bound is
+attained" says that some selection and coupling has `left[i]` (resp. `right[i]`) as its `i`-th
+smallest outcome (`IsRank`).  The full statements are `C02Validity o`, `C02Tight o`, `C02Encloses o`.
 
-Proved here: validity of both bounds (sum: any operands; product: non-negative operands — negative
-operands are routed through negation, which conjugates this case, see `neg` in the model and the
-correspondence check), tightness of both bounds (the extremal anti-diagonal couplings attain them),
-the two `sort` calls of `frechet_op` are identities.  Right-bound tightness is proved by the dual coupling.  Not proved (kept as tie + oracle only): the
-straddling product (naive ∩ Balch), general couplings that
-are not permutations (Birkhoff mixture argument, cited).
+Proved (all at the level of the public methods, through the constructor, negation, reciprocal and
+the sign routing of the product):
+* validity: `C02Validity_add_partial`, `C02Validity_sub_partial`,
+  `C02Validity_mul_onesign_partial` (operands of one sign each, all four sign combinations,
+  operands touching zero included — exactly the inputs the model does not route to the straddling
+  branch, `oneSign_of_not_straddles`), `C02Validity_div_onesign_partial` (one-signed dividend,
+  zero-free divisor); `C02Validity_mul_pos_partial` is kept as the positive instance;
+* tightness of BOTH bounds: `C02Tight_add_partial`, `C02Tight_sub_partial`,
+  `C02Tight_mul_onesign_partial`, `C02Tight_div_onesign_partial`, and with the bounding selections
+  named explicitly `add_f_tight`, `sub_f_tight`, `mul_f_pos_tight` (anti-diagonal couplings);
+* totality and well-formedness of the result on these inputs: `add_f_ok`, `mul_f_onesign_ok`,
+  `div_f_onesign_ok`;
+* enclosure of the other dependencies: `C02Encloses_add_po_partial`,
+  `C02Encloses_mul_nonneg_po_partial` (Frechet encloses the perfect and the opposite result),
+  `C02Encloses_add_i_partial`, `C02Encloses_mul_nonneg_i_partial` (… and the independent result
+  after condensation of its `n²` values).
+* the two `sort` calls of `frechet_op` are identities.
+
+Missing (correspondence + oracle only): the product / quotient with a zero-straddling operand
+(naive ∩ Balch, `straddleFrechet`); enclosure of p/o/i for `sub`, `div` and for products with a
+non-positive operand; couplings that are not permutations (Birkhoff mixture argument, cited).
 -/
 set_option linter.unusedSimpArgs false
 set_option linter.unusedVariables false
 namespace Pun.PBox
 open Pun Finset
-
-/-- well-formed operand: `n` steps, both bounds sorted -/
-structure WFS (n : Nat) (p : PB) : Prop where
-  llen : p.left.length = n
-  rlen : p.right.length = n
-  lsorted : p.left.Pairwise (· ≤ ·)
-  rsorted : p.right.Pairwise (· ≤ ·)
-
-/-- selection of one value per step -/
-def Sel (n : Nat) (p : PB) (h : WFS n p) (z : Fin n → Rat) : Prop :=
-  ∀ m : Fin n, p.left[m.val]'(by have := h.llen; omega) ≤ z m ∧ z m ≤ p.right[m.val]'(by have := h.rlen; omega)
 
 /-- **C02 validity, sum.** `X + Y` under Frechet: for every selection from each operand and every
 coupling, the outcomes `x m + y (σ m)` have at most `i` values below `left[i]` and at most `n-1-i`
@@ -74,15 +82,6 @@ theorem frechet_add_tight_right (n : Nat) (X Y : PB) (hX : WFS n X) (hY : WFS n 
   rw [frechetOp_eq_raw (· + ·) add_mono2 X Y (by rw [hX.llen, hY.llen]) (by rw [hX.rlen, hY.rlen])
     hY.lsorted hX.rsorted] at hr
   exact frechetRight_tight (· + ·) add_mono2 X.right Y.right n hX.rlen hY.rlen hX.rsorted hY.rsorted i r hr
-
-/-- non-negative operand -/
-def NonNeg (p : PB) : Prop := (∀ v ∈ p.left, 0 ≤ v) ∧ (∀ v ∈ p.right, 0 ≤ v)
-
-/-- on non-negative operands `frechet_op(…, mul)` is the rule for the clamped product -/
-theorem frechetOp_mul_eq (X Y : PB) (hX : NonNeg X) (hY : NonNeg Y) :
-    frechetOp (· * ·) X Y = frechetOp mulPos X Y := by
-  unfold frechetOp
-  rw [frechetLeftRaw_mul_eq X.left Y.left hX.1 hY.1, frechetRightRaw_mul_eq X.right Y.right hX.2 hY.2]
 
 /-- **C02 validity, product of non-negative operands.** -/
 theorem frechet_mul_pos_valid (n : Nat) (X Y : PB) (hX : WFS n X) (hY : WFS n Y)
@@ -137,10 +136,6 @@ theorem frechet_add_sorted (n : Nat) (X Y : PB) (hX : WFS n X) (hY : WFS n Y) :
   frechetOp_eq_raw (· + ·) add_mono2 X Y (by rw [hX.llen, hY.llen]) (by rw [hX.rlen, hY.rlen])
     hY.lsorted hX.rsorted
 
-/-- fully well-formed p-box: `n` steps, sorted bounds, `left ≤ right` at every step -/
-structure WF (n : Nat) (p : PB) : Prop extends WFS n p where
-  le : ∀ i (h : i < n), p.left[i]'(by omega) ≤ p.right[i]'(by omega)
-
 /-- **The public method** `X.add(Y, dependency='f')` (and the bare `X + Y` under the default
 setting) returns exactly the raw Frechet bounds — the constructor's switch, length normalisation and
 monotonicity check all pass — and the result is again well formed. -/
@@ -160,9 +155,6 @@ theorem add_f_ok (n : Nat) (X Y : PB) (hX : WF n X) (hY : WF n Y) :
   unfold add
   simp only [hs]
   exact mk_arr_ok n _ _ ll lr sl sr (fun i h => hle i (by omega))
-
-/-- divisor support excludes zero -/
-def ZeroFree (p : PB) : Prop := (∀ v ∈ p.left, 0 < v) ∨ (∀ v ∈ p.right, v < 0)
 
 /-- **Full statement of C02 (validity part) for the public methods**, all four operations and all
 sign configurations.  Proved below for `add` (`C02Validity_add_partial`); the other operations
@@ -188,55 +180,6 @@ theorem C02Validity_add_partial : C02Validity .add := by
   subst hRe
   have hs := frechet_add_sorted n X Y hX.toWFS hY.toWFS
   exact frechet_add_valid n X Y hX.toWFS hY.toWFS x y hx hy σ i l r (by rw [hs]; exact hl) (by rw [hs]; exact hr)
-
-/-- `-Y` of a well-formed p-box is well formed -/
-theorem neg_wf (n : Nat) (Y : PB) (hY : WF n Y) :
-    neg n Y = .ok ⟨Y.right.reverse.map (- ·), Y.left.reverse.map (- ·)⟩ ∧
-    WF n ⟨Y.right.reverse.map (- ·), Y.left.reverse.map (- ·)⟩ := by
-  refine ⟨neg_ok n Y hY.llen hY.rlen hY.lsorted hY.rsorted hY.le, ⟨⟨by simp [hY.rlen], by simp [hY.llen],
-    neg_rev_sorted _ hY.rsorted, neg_rev_sorted _ hY.lsorted⟩, ?_⟩⟩
-  intro i h
-  simp only [List.getElem_map, List.getElem_reverse, hY.llen, hY.rlen]
-  have := hY.le (n - 1 - i) (by omega)
-  linarith
-
-/-- C02 validity for the public `sub` / bare `-`: subtraction is Frechet addition of the negated
-operand, and negation mirrors selections and couplings (`y ↦ -y ∘ rev`, `σ ↦ rev ∘ σ`). -/
-theorem C02Validity_sub_partial : C02Validity .sub := by
-  intro n X Y R hX hY _ hR x y hx hy σ i l r hl hr
-  obtain ⟨hneg, hY'⟩ := neg_wf n Y hY
-  simp only [binop, sub, hneg, swapPO, bind, Except.bind] at hR
-  have key := C02Validity_add_partial n X _ R hX hY' (by intro h; cases h) (by simpa [binop] using hR)
-    x (fun m => - y (Fin.rev m)) hx
-    (by
-      intro m
-      have hm := m.isLt
-      have hy' := hy (Fin.rev m)
-      simp only [Fin.val_rev] at hy'
-      have hrl := hY.rlen
-      have hll := hY.llen
-      constructor
-      · simp only [List.getElem_map, List.getElem_reverse]
-        have e : Y.right[Y.right.length - 1 - m.val]'(by omega) = Y.right[n - (m.val + 1)]'(by omega) := by
-          congr 1; omega
-        rw [e]; linarith [hy'.2]
-      · simp only [List.getElem_map, List.getElem_reverse]
-        have e : Y.left[Y.left.length - 1 - m.val]'(by omega) = Y.left[n - (m.val + 1)]'(by omega) := by
-          congr 1; omega
-        rw [e]; linarith [hy'.1])
-    (σ.trans Fin.revPerm) i l r hl hr
-  simp only [Op.ap, Equiv.trans_apply, Fin.revPerm_apply, Fin.rev_rev] at key ⊢
-  have e : ∀ m, x m - y (σ m) = x m + -y (σ m) := fun m => sub_eq_add_neg _ _
-  simp only [e]
-  exact key
-
-theorem not_straddles_of_nonneg (p : PB) (h : NonNeg p) : straddlesZero p = false := by
-  unfold straddlesZero
-  have : ¬ minL 0 p.left < 0 := by
-    by_cases hne : p.left = []
-    · simp [hne, minL]
-    · exact not_lt.mpr (h.1 _ (minL_spec 0 p.left hne).1)
-  simp [this]
 
 /-- the public product of two non-negative, not identically zero p-boxes under Frechet returns the raw
 rule for the clamped (monotone) product, and the result is well formed -/
@@ -284,10 +227,366 @@ theorem C02Validity_mul_pos_partial (n : Nat) (X Y R : PB) (hX : WF n X) (hY : W
   exact frechet_mul_pos_valid n X Y hX.toWFS hY.toWFS pX pY x y hx hy σ i l r
     (by rw [hop]; exact hl) (by rw [hop]; exact hr)
 
+/-! ## tightness and enclosure: full statements -/
+
+/-- **Full statement of C02 (tightness part)**: every entry of either bound of the public Frechet
+result is the order statistic of the same rank of the outcomes of SOME selection of one value per step
+of each operand under SOME coupling — the bounds cannot be improved. -/
+def C02Tight (o : Op) : Prop :=
+  ∀ (n : Nat) (X Y R : PB) (hX : WF n X) (hY : WF n Y), (o = .div → ZeroFree Y) →
+    binop n o .f X Y = .ok R → ∀ (i : Fin n),
+      (∀ l, R.left[i.val]? = some l → ∃ x y : Fin n → Rat, Sel n X hX.toWFS x ∧ Sel n Y hY.toWFS y ∧
+        ∃ σ : Equiv.Perm (Fin n), IsRank n (fun m => o.ap (x m) (y (σ m))) i l) ∧
+      (∀ r, R.right[i.val]? = some r → ∃ x y : Fin n → Rat, Sel n X hX.toWFS x ∧ Sel n Y hY.toWFS y ∧
+        ∃ σ : Equiv.Perm (Fin n), IsRank n (fun m => o.ap (x m) (y (σ m))) i r)
+
+/-- **Full statement of C02 (enclosure part)**: the Frechet result encloses the result of the same
+operation under every other dependency, step by step. -/
+def C02Encloses (o : Op) : Prop :=
+  ∀ (n : Nat) (d : Dep) (X Y F D : PB), WF n X → WF n Y → (o = .div → ZeroFree Y) →
+    binop n o .f X Y = .ok F → binop n o d X Y = .ok D → Encloses F D
+
+/-! ## `add` -/
+
+theorem add_f_good (n : Nat) (X Y : PB) (hX : WF n X) (hY : WF n Y) :
+    add n .f X Y = .ok (rawF (· + ·) X Y) ∧ WF n (rawF (· + ·) X Y) ∧
+    Good n (· + ·) X Y (rawF (· + ·) X Y) hX.toWFS hY.toWFS :=
+  good_frechet (· + ·) add_mono2 n X Y hX hY
+
+/-- C02 tightness for the public `add` / bare `+`, both bounds -/
+theorem C02Tight_add_partial : C02Tight .add := by
+  intro n X Y R hX hY _ hR i
+  obtain ⟨e, -, g⟩ := add_f_good n X Y hX hY
+  simp only [binop] at hR
+  rw [e] at hR
+  have hRe := (Except.ok.inj hR).symm
+  subst hRe
+  exact ⟨fun l hl => g.tightL i l hl, fun r hr => g.tightR i r hr⟩
+
+/-- tightness of `add`, naming the selections: the left bound is attained by the two left bounds, the
+right bound by the two right bounds, under the anti-diagonal couplings -/
+theorem add_f_tight (n : Nat) (X Y R : PB) (hX : WF n X) (hY : WF n Y)
+    (hR : binop n .add .f X Y = .ok R) (i : Fin n) :
+    (∀ l, R.left[i.val]? = some l → ∃ σ : Equiv.Perm (Fin n),
+      IsRank n (fun m => X.left[m.val]'(by have := hX.llen; omega) +
+        Y.left[(σ m).val]'(by have := hY.llen; omega)) i l) ∧
+    (∀ r, R.right[i.val]? = some r → ∃ σ : Equiv.Perm (Fin n),
+      IsRank n (fun m => X.right[m.val]'(by have := hX.rlen; omega) +
+        Y.right[(σ m).val]'(by have := hY.rlen; omega)) i r) := by
+  obtain ⟨e, -, -⟩ := add_f_good n X Y hX hY
+  simp only [binop] at hR
+  rw [e] at hR
+  have hRe := (Except.ok.inj hR).symm
+  subst hRe
+  exact frechet_tight_explicit (· + ·) add_mono2 n X Y hX hY i
+
+/-! ## `sub` : Frechet addition of the negated operand -/
+
+theorem sub_f_good (n : Nat) (X Y : PB) (hX : WF n X) (hY : WF n Y) :
+    sub n .f X Y = .ok (rawF (· + ·) X (negB Y)) ∧ WF n (rawF (· + ·) X (negB Y)) ∧
+    Good n (· - ·) X Y (rawF (· + ·) X (negB Y)) hX.toWFS hY.toWFS := by
+  obtain ⟨en, wn⟩ := neg_wf n Y hY
+  obtain ⟨e, w, g⟩ := add_f_good n X (negB Y) hX wn
+  refine ⟨?_, w, ?_⟩
+  · simp only [sub, en, swapPO, bind, Except.bind]
+    exact e
+  · exact (g.flipY _ _ antiInv_neg hY.toWFS (inS_true Y) wn.toWFS).congr
+      (fun a b => (sub_eq_add_neg a b).symm)
+
+/-- C02 validity for the public `sub` / bare `-`: subtraction is Frechet addition of the negated
+operand, and negation mirrors selections and couplings (`y ↦ -y ∘ rev`, `σ ↦ rev ∘ σ`). -/
+theorem C02Validity_sub_partial : C02Validity .sub := by
+  intro n X Y R hX hY _ hR x y hx hy σ i l r hl hr
+  obtain ⟨e, -, g⟩ := sub_f_good n X Y hX hY
+  simp only [binop] at hR
+  rw [e] at hR
+  have hRe := (Except.ok.inj hR).symm
+  subst hRe
+  exact g.valid x y hx hy σ i l r hl hr
+
+/-- C02 tightness for the public `sub` / bare `-`, both bounds -/
+theorem C02Tight_sub_partial : C02Tight .sub := by
+  intro n X Y R hX hY _ hR i
+  obtain ⟨e, -, g⟩ := sub_f_good n X Y hX hY
+  simp only [binop] at hR
+  rw [e] at hR
+  have hRe := (Except.ok.inj hR).symm
+  subst hRe
+  exact ⟨fun l hl => g.tightL i l hl, fun r hr => g.tightR i r hr⟩
+
+/-- tightness of `sub`, naming the selections: the left bound of `X - Y` is attained by `X.left` against
+`Y.right`, the right bound by `X.right` against `Y.left` -/
+theorem sub_f_tight (n : Nat) (X Y R : PB) (hX : WF n X) (hY : WF n Y)
+    (hR : binop n .sub .f X Y = .ok R) (i : Fin n) :
+    (∀ l, R.left[i.val]? = some l → ∃ σ : Equiv.Perm (Fin n),
+      IsRank n (fun m => X.left[m.val]'(by have := hX.llen; omega) -
+        Y.right[(σ m).val]'(by have := hY.rlen; omega)) i l) ∧
+    (∀ r, R.right[i.val]? = some r → ∃ σ : Equiv.Perm (Fin n),
+      IsRank n (fun m => X.right[m.val]'(by have := hX.rlen; omega) -
+        Y.left[(σ m).val]'(by have := hY.llen; omega)) i r) := by
+  obtain ⟨e, -, -⟩ := sub_f_good n X Y hX hY
+  obtain ⟨-, wn⟩ := neg_wf n Y hY
+  simp only [binop] at hR
+  rw [e] at hR
+  have hRe := (Except.ok.inj hR).symm
+  subst hRe
+  obtain ⟨t1, t2⟩ := frechet_tight_explicit (· + ·) add_mono2 n X (negB Y) hX wn i
+  have hl := hY.llen; have hr := hY.rlen
+  constructor
+  · intro l hl'
+    obtain ⟨σ, h⟩ := t1 l hl'
+    refine ⟨σ.trans Fin.revPerm, ?_⟩
+    have e : (fun m : Fin n => X.left[m.val]'(by have := hX.llen; omega) -
+        Y.right[((σ.trans Fin.revPerm) m).val]'(by omega)) =
+        (fun m : Fin n => X.left[m.val]'(by have := hX.llen; omega) +
+          (negB Y).left[(σ m).val]'(by have := wn.llen; omega)) := by
+      funext m
+      have hs := (σ m).isLt
+      simp only [negB, flipB, List.getElem_map, List.getElem_reverse, Equiv.trans_apply, Fin.revPerm_apply,
+        Fin.val_rev, sub_eq_add_neg]
+      congr 3
+      omega
+    rw [e]; exact h
+  · intro r hr'
+    obtain ⟨σ, h⟩ := t2 r hr'
+    refine ⟨σ.trans Fin.revPerm, ?_⟩
+    have e : (fun m : Fin n => X.right[m.val]'(by have := hX.rlen; omega) -
+        Y.left[((σ.trans Fin.revPerm) m).val]'(by omega)) =
+        (fun m : Fin n => X.right[m.val]'(by have := hX.rlen; omega) +
+          (negB Y).right[(σ m).val]'(by have := wn.rlen; omega)) := by
+      funext m
+      have hs := (σ m).isLt
+      simp only [negB, flipB, List.getElem_map, List.getElem_reverse, Equiv.trans_apply, Fin.revPerm_apply,
+        Fin.val_rev, sub_eq_add_neg]
+      congr 3
+      omega
+    rw [e]; exact h
+
+/-! ## `mul` on operands of one sign each (sign routing through `negativeFrechet`) -/
+
+/-- the public product of operands of one sign each returns a well-formed p-box -/
+theorem mul_f_onesign_ok (n : Nat) (X Y : PB) (hX : WF n X) (hY : WF n Y) (sX : OneSign X) (sY : OneSign Y) :
+    ∃ R, binop n .mul .f X Y = .ok R ∧ WF n R := by
+  obtain ⟨R, e, w, -⟩ := mul_f_onesign_good n X Y hX hY sX sY
+  exact ⟨R, e, w⟩
+
+/-- **C02 validity for the public `mul` / bare `*` on operands of ONE sign each** — all four sign
+combinations, operands that touch zero from either side included — through the model's
+`negativeFrechet` routing (negation mirrors selections `x ↦ −x∘rev` and couplings, and mirrors the
+result).  Partial: what remains missing of `C02Validity .mul` is a zero-straddling operand
+(naive ∩ Balch). -/
+theorem C02Validity_mul_onesign_partial (n : Nat) (X Y R : PB) (hX : WF n X) (hY : WF n Y)
+    (sX : OneSign X) (sY : OneSign Y) (hR : binop n .mul .f X Y = .ok R)
+    (x y : Fin n → Rat) (hx : Sel n X hX.toWFS x) (hy : Sel n Y hY.toWFS y)
+    (σ : Equiv.Perm (Fin n)) (i : Fin n) (l r : Rat)
+    (hl : R.left[i.val]? = some l) (hr : R.right[i.val]? = some r) :
+    (univ.filter (fun m : Fin n => x m * y (σ m) < l)).card ≤ i.val ∧
+    (univ.filter (fun m : Fin n => r < x m * y (σ m))).card ≤ n - 1 - i.val := by
+  obtain ⟨R', e, -, g⟩ := mul_f_onesign_good n X Y hX hY sX sY
+  simp only [binop] at hR
+  rw [e] at hR
+  have hRe := (Except.ok.inj hR).symm
+  subst hRe
+  exact g.valid x y hx hy σ i l r hl hr
+
+/-- the same with the model's own routing test as hypothesis: neither operand straddles zero -/
+theorem C02Validity_mul_nostraddle_partial (n : Nat) (X Y R : PB) (hX : WF n X) (hY : WF n Y)
+    (sX : straddlesZero X = false) (sY : straddlesZero Y = false) (hR : binop n .mul .f X Y = .ok R)
+    (x y : Fin n → Rat) (hx : Sel n X hX.toWFS x) (hy : Sel n Y hY.toWFS y)
+    (σ : Equiv.Perm (Fin n)) (i : Fin n) (l r : Rat)
+    (hl : R.left[i.val]? = some l) (hr : R.right[i.val]? = some r) :
+    (univ.filter (fun m : Fin n => x m * y (σ m) < l)).card ≤ i.val ∧
+    (univ.filter (fun m : Fin n => r < x m * y (σ m))).card ≤ n - 1 - i.val :=
+  C02Validity_mul_onesign_partial n X Y R hX hY (oneSign_of_not_straddles n X hX sX)
+    (oneSign_of_not_straddles n Y hY sY) hR x y hx hy σ i l r hl hr
+
+/-- C02 tightness for the public `mul` on operands of one sign each, both bounds (partial: missing a
+zero-straddling operand) -/
+theorem C02Tight_mul_onesign_partial (n : Nat) (X Y R : PB) (hX : WF n X) (hY : WF n Y)
+    (sX : OneSign X) (sY : OneSign Y) (hR : binop n .mul .f X Y = .ok R) (i : Fin n) :
+    (∀ l, R.left[i.val]? = some l → ∃ x y : Fin n → Rat, Sel n X hX.toWFS x ∧ Sel n Y hY.toWFS y ∧
+      ∃ σ : Equiv.Perm (Fin n), IsRank n (fun m => x m * y (σ m)) i l) ∧
+    (∀ r, R.right[i.val]? = some r → ∃ x y : Fin n → Rat, Sel n X hX.toWFS x ∧ Sel n Y hY.toWFS y ∧
+      ∃ σ : Equiv.Perm (Fin n), IsRank n (fun m => x m * y (σ m)) i r) := by
+  obtain ⟨R', e, -, g⟩ := mul_f_onesign_good n X Y hX hY sX sY
+  simp only [binop] at hR
+  rw [e] at hR
+  have hRe := (Except.ok.inj hR).symm
+  subst hRe
+  exact ⟨fun l hl => g.tightL i l hl, fun r hr => g.tightR i r hr⟩
+
+/-- tightness of the product of non-negative, not identically zero operands, naming the selections:
+left bounds against left bounds, right bounds against right bounds, anti-diagonal couplings -/
+theorem mul_f_pos_tight (n : Nat) (X Y R : PB) (hX : WF n X) (hY : WF n Y) (pX : NonNeg X) (pY : NonNeg Y)
+    (hxh : 0 < hi X) (hyh : 0 < hi Y) (hR : binop n .mul .f X Y = .ok R) (i : Fin n) :
+    (∀ l, R.left[i.val]? = some l → ∃ σ : Equiv.Perm (Fin n),
+      IsRank n (fun m => X.left[m.val]'(by have := hX.llen; omega) *
+        Y.left[(σ m).val]'(by have := hY.llen; omega)) i l) ∧
+    (∀ r, R.right[i.val]? = some r → ∃ σ : Equiv.Perm (Fin n),
+      IsRank n (fun m => X.right[m.val]'(by have := hX.rlen; omega) *
+        Y.right[(σ m).val]'(by have := hY.rlen; omega)) i r) := by
+  simp only [binop] at hR
+  rw [mul_f_pos_ok n X Y hX hY pX pY hxh hyh] at hR
+  have hRe := (Except.ok.inj hR).symm
+  subst hRe
+  obtain ⟨t1, t2⟩ := frechet_tight_explicit mulPos mulPos_mono2 n X Y hX hY i
+  constructor
+  · intro l hl
+    obtain ⟨σ, h⟩ := t1 l hl
+    refine ⟨σ, ?_⟩
+    have e : ∀ m : Fin n, X.left[m.val]'(by have := hX.llen; omega) * Y.left[(σ m).val]'(by have := hY.llen; omega) =
+        mulPos (X.left[m.val]'(by have := hX.llen; omega)) (Y.left[(σ m).val]'(by have := hY.llen; omega)) := fun m =>
+      (mulPos_eq _ _ (pX.1 _ (List.getElem_mem _)) (pY.1 _ (List.getElem_mem _))).symm
+    simp only [e]; exact h
+  · intro r hr
+    obtain ⟨σ, h⟩ := t2 r hr
+    refine ⟨σ, ?_⟩
+    have e : ∀ m : Fin n, X.right[m.val]'(by have := hX.rlen; omega) * Y.right[(σ m).val]'(by have := hY.rlen; omega) =
+        mulPos (X.right[m.val]'(by have := hX.rlen; omega)) (Y.right[(σ m).val]'(by have := hY.rlen; omega)) := fun m =>
+      (mulPos_eq _ _ (pX.2 _ (List.getElem_mem _)) (pY.2 _ (List.getElem_mem _))).symm
+    simp only [e]; exact h
+
+/-! ## `div` : Frechet product with the reciprocal -/
+
+/-- the public quotient of a one-signed dividend by a zero-free divisor returns a well-formed p-box -/
+theorem div_f_onesign_ok (n : Nat) (X Y : PB) (hX : WF n X) (hY : WF n Y) (sX : OneSign X) (z : ZeroFree Y) :
+    ∃ R, binop n .div .f X Y = .ok R ∧ WF n R := by
+  obtain ⟨R, e, w, -⟩ := div_f_onesign_good n X Y hX hY sX z
+  exact ⟨R, e, w⟩
+
+/-- **C02 validity for the public `div` / bare `/`** with a dividend of one sign and a zero-free
+(hence one-signed) divisor: `x / y = x * (1/y)`, the reciprocal mirrors selections `y ↦ (1/y)∘rev`
+and couplings `σ ↦ rev∘σ`.  Partial: missing a zero-straddling dividend. -/
+theorem C02Validity_div_onesign_partial (n : Nat) (X Y R : PB) (hX : WF n X) (hY : WF n Y)
+    (sX : OneSign X) (z : ZeroFree Y) (hR : binop n .div .f X Y = .ok R)
+    (x y : Fin n → Rat) (hx : Sel n X hX.toWFS x) (hy : Sel n Y hY.toWFS y)
+    (σ : Equiv.Perm (Fin n)) (i : Fin n) (l r : Rat)
+    (hl : R.left[i.val]? = some l) (hr : R.right[i.val]? = some r) :
+    (univ.filter (fun m : Fin n => x m / y (σ m) < l)).card ≤ i.val ∧
+    (univ.filter (fun m : Fin n => r < x m / y (σ m))).card ≤ n - 1 - i.val := by
+  obtain ⟨R', e, -, g⟩ := div_f_onesign_good n X Y hX hY sX z
+  simp only [binop] at hR
+  rw [e] at hR
+  have hRe := (Except.ok.inj hR).symm
+  subst hRe
+  exact g.valid x y hx hy σ i l r hl hr
+
+/-- C02 tightness for the public `div`, both bounds (partial: missing a zero-straddling dividend) -/
+theorem C02Tight_div_onesign_partial (n : Nat) (X Y R : PB) (hX : WF n X) (hY : WF n Y)
+    (sX : OneSign X) (z : ZeroFree Y) (hR : binop n .div .f X Y = .ok R) (i : Fin n) :
+    (∀ l, R.left[i.val]? = some l → ∃ x y : Fin n → Rat, Sel n X hX.toWFS x ∧ Sel n Y hY.toWFS y ∧
+      ∃ σ : Equiv.Perm (Fin n), IsRank n (fun m => x m / y (σ m)) i l) ∧
+    (∀ r, R.right[i.val]? = some r → ∃ x y : Fin n → Rat, Sel n X hX.toWFS x ∧ Sel n Y hY.toWFS y ∧
+      ∃ σ : Equiv.Perm (Fin n), IsRank n (fun m => x m / y (σ m)) i r) := by
+  obtain ⟨R', e, -, g⟩ := div_f_onesign_good n X Y hX hY sX z
+  simp only [binop] at hR
+  rw [e] at hR
+  have hRe := (Except.ok.inj hR).symm
+  subst hRe
+  exact ⟨fun l hl => g.tightL i l hl, fun r hr => g.tightR i r hr⟩
+
+/-- a divisor with a zero bound is rejected (`TypeError` from the reflected division) -/
+theorem div_zero_bound_raises (n : Nat) (d : Dep) (X Y : PB) (h : (0 : Rat) ∈ Y.left ∨ (0 : Rat) ∈ Y.right) :
+    binop n .div d X Y = .error .Type := by
+  simp only [binop, div, recip_zero_raises n Y h, bind, Except.bind]
+
+/-! ## Frechet encloses the perfect and the opposite result -/
+
+/-- C02 enclosure, `add` against `'p'` and `'o'` (partial: `'i'` is `C02Encloses_add_i_partial`) -/
+theorem C02Encloses_add_po_partial (n : Nat) (d : Dep) (hd : d = .p ∨ d = .o) (X Y F D : PB)
+    (hX : WF n X) (hY : WF n Y) (hF : binop n .add .f X Y = .ok F) (hD : binop n .add d X Y = .ok D) :
+    Encloses F D := by
+  obtain ⟨e, w, g⟩ := add_f_good n X Y hX hY
+  simp only [binop] at hF hD
+  rw [e] at hF
+  have hFe := (Except.ok.inj hF).symm
+  subst hFe
+  rcases hd with rfl | rfl
+  · obtain ⟨e1, e2, -⟩ := perfectOp_mono (· + ·) add_mono2 n X Y hX hY
+    simp only [add, e1, e2] at hD
+    have hDe := (Except.ok.inj hD).symm
+    subst hDe
+    exact good_encloses_perfect (· + ·) n X Y _ hX hY ⟨w.llen, w.rlen⟩ g
+  · obtain ⟨e1, e2, -⟩ := oppositeOp_mono (· + ·) add_mono2 n X Y hX hY
+    simp only [add, e1, e2] at hD
+    have hDe := (Except.ok.inj hD).symm
+    subst hDe
+    exact good_encloses_opposite (· + ·) n X Y _ hX hY ⟨w.llen, w.rlen⟩ g
+
+/-- C02 enclosure, `sub` against `'p'` and `'o'`: `X.sub(Y, d) = X.add(-Y, swapped d)` -/
+theorem C02Encloses_sub_po_partial (n : Nat) (d : Dep) (hd : d = .p ∨ d = .o) (X Y F D : PB)
+    (hX : WF n X) (hY : WF n Y) (hF : binop n .sub .f X Y = .ok F) (hD : binop n .sub d X Y = .ok D) :
+    Encloses F D := by
+  obtain ⟨en, wn⟩ := neg_wf n Y hY
+  simp only [binop, sub, en, bind, Except.bind] at hF hD
+  simp only [swapPO] at hF
+  refine C02Encloses_add_po_partial n (swapPO d) ?_ X (negB Y) F D hX wn (by simpa [binop] using hF)
+    (by simpa [binop] using hD)
+  rcases hd with rfl | rfl
+  · right; rfl
+  · left; rfl
+
+/-- C02 enclosure, `mul` of non-negative operands against `'p'` and `'o'` -/
+theorem C02Encloses_mul_nonneg_po_partial (n : Nat) (d : Dep) (hd : d = .p ∨ d = .o) (X Y F D : PB)
+    (hX : WF n X) (hY : WF n Y) (pX : NonNeg X) (pY : NonNeg Y)
+    (hF : binop n .mul .f X Y = .ok F) (hD : binop n .mul d X Y = .ok D) :
+    Encloses F D := by
+  obtain ⟨F', e, w, g⟩ := mul_f_onesign_good n X Y hX hY (Or.inl pX) (Or.inl pY)
+  simp only [binop] at hF hD
+  rw [e] at hF
+  have hFe := (Except.ok.inj hF).symm
+  subst hFe
+  rcases hd with rfl | rfl
+  · obtain ⟨e1, e2, -⟩ := perfectOp_mono mulPos mulPos_mono2 n X Y hX hY
+    simp only [mul, perfectOp_mul_eq X Y pX pY, e1, e2] at hD
+    have hDe := (Except.ok.inj hD).symm
+    subst hDe
+    rw [perfF_mul_eq X Y pX pY]
+    exact good_encloses_perfect (· * ·) n X Y _ hX hY ⟨w.llen, w.rlen⟩ g
+  · obtain ⟨e1, e2, -⟩ := oppositeOp_mono mulPos mulPos_mono2 n X Y hX hY
+    simp only [mul, oppositeOp_mul_eq X Y pX pY, e1, e2] at hD
+    have hDe := (Except.ok.inj hD).symm
+    subst hDe
+    rw [oppF_mul_eq X Y pX pY]
+    exact good_encloses_opposite (· * ·) n X Y _ hX hY ⟨w.llen, w.rlen⟩ g
+
+/-- C02 enclosure, `div` of a non-negative dividend by a positive divisor against `'p'` and `'o'` -/
+theorem C02Encloses_div_pos_po_partial (n : Nat) (d : Dep) (hd : d = .p ∨ d = .o) (X Y F D : PB)
+    (hX : WF n X) (hY : WF n Y) (pX : NonNeg X) (pY : ∀ v ∈ Y.left, 0 < v)
+    (hF : binop n .div .f X Y = .ok F) (hD : binop n .div d X Y = .ok D) :
+    Encloses F D := by
+  have z : ZeroFree Y := Or.inl pY
+  obtain ⟨-, w, -, -⟩ := recip_ok n Y hY z
+  have hS : InS (fun v => 0 < v) Y := by
+    refine ⟨pY, ?_⟩
+    intro v hv
+    obtain ⟨i, hi', rfl⟩ := List.getElem_of_mem hv
+    have hl := hY.llen; have hr := hY.rlen
+    exact lt_of_lt_of_le (pY _ (List.getElem_mem _)) (hY.le i (by omega))
+  obtain ⟨-, hS'⟩ := flipB_wf _ _ antiInv_recip_pos n Y hY hS
+  have pR : NonNeg (recipB Y) := ⟨fun v hv => le_of_lt (hS'.1 v hv), fun v hv => le_of_lt (hS'.2 v hv)⟩
+  simp only [binop, div_eq_mul_recip n _ X Y hY z] at hF hD
+  simp only [swapPO] at hF
+  refine C02Encloses_mul_nonneg_po_partial n (swapPO d) ?_ X (recipB Y) F D hX w pX pR
+    (by simpa [binop] using hF) (by simpa [binop] using hD)
+  rcases hd with rfl | rfl
+  · right; rfl
+  · left; rfl
+
 /-! non-vacuity: a concrete pair of 3-step boxes meets the hypotheses, and the rule computes -/
 example : WFS 3 ⟨[1, 2, 3], [2, 3, 4]⟩ := ⟨rfl, rfl, by decide, by decide⟩
 example : frechetLeftRaw (· + ·) [1, 2, 3] [0, 1, 5] = [1, 2, 6] := by decide +kernel
 example : frechetRightRaw (· + ·) [2, 3, 4] [1, 2, 6] = [5, 6, 10] := by decide +kernel
 example : NonNeg ⟨[1, 2, 3], [2, 3, 4]⟩ := by constructor <;> decide
+
+example : OneSign ⟨[-3, -2, 0], [-2, -1, 0]⟩ := Or.inr (by constructor <;> decide)
+example : ZeroFree ⟨[1, 2, 3], [2, 3, 4]⟩ := Or.inl (by decide)
+example : WF 2 ⟨[-3, -2], [-2, 0]⟩ := ⟨⟨rfl, rfl, by decide, by decide⟩, by decide⟩
+example : ∃ R, binop 2 .mul .f ⟨[-3, -2], [-2, 0]⟩ ⟨[1, 2], [2, 4]⟩ = .ok R ∧ WF 2 R :=
+  mul_f_onesign_ok 2 _ _ ⟨⟨rfl, rfl, by decide, by decide⟩, by decide⟩ ⟨⟨rfl, rfl, by decide, by decide⟩, by decide⟩
+    (Or.inr (by constructor <;> decide)) (Or.inl (by constructor <;> decide))
+example : ∃ R, binop 2 .div .f ⟨[1, 2], [2, 4]⟩ ⟨[-4, -2], [-2, -1]⟩ = .ok R ∧ WF 2 R :=
+  div_f_onesign_ok 2 _ _ ⟨⟨rfl, rfl, by decide, by decide⟩, by decide⟩ ⟨⟨rfl, rfl, by decide, by decide⟩, by decide⟩
+    (Or.inl (by constructor <;> decide)) (Or.inr (by decide))
 
 end Pun.PBox
